@@ -168,7 +168,19 @@ func (j *Judge) Reopen(im Image, ghost int, strict bool, refeed bool) (v Verdict
 			return Verdict{Class: "index-disagrees", Detail: fmt.Sprintf("canonical #%d = %x.., ancestor of head is node %d", blk.NumberU64(), got[:4], id), Head: hid}
 		}
 		if b := bc.GetBlockByNumber(blk.NumberU64()); b == nil || b.Hash() != blk.Hash() {
-			return Verdict{Class: "ancestor-unreadable", Detail: fmt.Sprintf("GetBlockByNumber(%d)", blk.NumberU64()), Head: hid}
+			return Verdict{Class: "ancestor-unreadable", Detail: fmt.Sprintf("GetBlockByNumber(%d) of the indexed hash %x.. (node %d) is nil: the block is not in the database", blk.NumberU64(), blk.Hash().Bytes()[:4], id), Head: hid}
+		}
+		// header, body, receipts and total difficulty of every canonical block, straight from the database
+		n, h := blk.NumberU64(), blk.Hash()
+		switch {
+		case core.GetHeaderNoVersion(db, h, n) == nil:
+			return Verdict{Class: "ancestor-incomplete", Detail: fmt.Sprintf("header of canonical #%d (node %d) missing", n, id), Head: hid}
+		case core.GetBodyNoVersion(db, h, n) == nil:
+			return Verdict{Class: "ancestor-incomplete", Detail: fmt.Sprintf("body of canonical #%d (node %d) missing", n, id), Head: hid}
+		case core.GetTd(db, h, n) == nil:
+			return Verdict{Class: "ancestor-incomplete", Detail: fmt.Sprintf("total difficulty of canonical #%d (node %d) missing", n, id), Head: hid}
+		case n > 0 && core.GetBlockReceipts(db, h, n) == nil && len(blk.Transactions()) > 0:
+			return Verdict{Class: "ancestor-incomplete", Detail: fmt.Sprintf("receipts of canonical #%d (node %d) missing", n, id), Head: hid}
 		}
 	}
 	if !refeed {
